@@ -1,22 +1,27 @@
 #!/bin/sh
 # usage: tools/mutant_matrix.sh [tier] [ids...]  -- run every seeded change against its property's check in a scratch worktree
-# (never touches /repo's working tree or /verif's evidence); writes seeded/<id>/result.txt
+# (never touches /repo's working tree or /verif's evidence); writes /verif/seeded/<id>/result.txt.
+# The checks are taken from the tree this script lives in (so `vp run -- tools/mutant_matrix.sh ...` uses a committed snapshot
+# that later edits of /verif cannot disturb); patches and results live in /verif/seeded.
 TIER=${1:-quick}; shift
 IDS="$@"
+HOME_=$(cd "$(dirname "$0")/.." && pwd)
 [ -z "$IDS" ] && IDS=$(ls /verif/seeded | grep '^C')
-mkdir -p /tmp/mm
+SCR=/tmp/mm$$; mkdir -p $SCR
 for id in $IDS; do
   P=$(echo $id | cut -d- -f1)
-  WT=/tmp/mm/$id
+  WT=$SCR/$id
   git -C /repo worktree remove --force $WT 2>/dev/null; rm -rf $WT
   git -C /repo worktree add -q --detach $WT HEAD || continue
   cp /repo/biom/*.so $WT/biom/
   PATCH=/verif/seeded/$id/patch.diff; [ -f /verif/seeded/$id/patch.rebased.diff ] && PATCH=/verif/seeded/$id/patch.rebased.diff
   (cd $WT && (git apply $PATCH 2>/dev/null || git apply -3 $PATCH >/dev/null 2>&1)) || { echo "$id APPLY-FAILED" > /verif/seeded/$id/result.txt; git -C /repo worktree remove --force $WT; continue; }
-  mkdir -p /tmp/mm/out-$id
-  (cd /verif && VERIF_REPO=$WT VERIF_OUT=/tmp/mm/out-$id bin/check $P --tier $TIER > /tmp/mm/out-$id/log 2>&1); RC=$?
-  NV=$(grep -c '^VIOLATION' /tmp/mm/out-$id/log)
-  echo "$id check=$P tier=$TIER rc=$RC violation_lines=$NV first=$(grep -m1 '^VIOLATION' /tmp/mm/out-$id/log | sed 's/.*replays.//')" > /verif/seeded/$id/result.txt
+  mkdir -p $SCR/out-$id
+  (cd $HOME_ && VERIF_REPO=$WT VERIF_OUT=$SCR/out-$id sh bin/check $P --tier $TIER > $SCR/out-$id/log 2>&1); RC=$?
+  NV=$(grep -c '^VIOLATION' $SCR/out-$id/log)
+  echo "$id check=$P tier=$TIER rc=$RC violation_lines=$NV first=$(grep -m1 '^VIOLATION' $SCR/out-$id/log | sed 's/.*replays.//')" > /verif/seeded/$id/result.txt
+  [ "$RC" = "2" ] && grep -m3 -A3 'HARNESS-ERROR\|Traceback\|Mismatch' $SCR/out-$id/log | cut -c1-300 >> /verif/seeded/$id/result.txt
   cat /verif/seeded/$id/result.txt
-  git -C /repo worktree remove --force $WT; rm -rf $WT /tmp/mm/out-$id
+  git -C /repo worktree remove --force $WT; rm -rf $WT $SCR/out-$id
 done
+rmdir $SCR 2>/dev/null
